@@ -1,6 +1,6 @@
 ------------------------------ MODULE MC_Team ------------------------------
 (* Input universes for the model checking leg.  The universe is a UNION of sub-universes, each of which varies one aspect *)
-(* richly (V: who defines a variable, P: which car lists which config bases, T: template trees and archive content)       *)
+(* richly (V: who defines a variable, P: which car lists which config bases, T: template trees and archive content, C: data path layouts)       *)
 (* and keeps the others small, instead of one unaffordable product.                                                        *)
 EXTENDS Team
 
@@ -11,11 +11,16 @@ Def(flag, nm, s) == IF flag THEN (nm :> Val(s)) ELSE NoVars
 Tpl == [T1 |-> <<"x", "http_port", "data_paths">>, T2 |-> <<"x", "log_path">>, T3 |-> <<>>]
 
 AllData == <<"b1", "b2", "b3", "c1", "c2", "c3", "p", "q">>
+\* where a data path can be relative to the installation ($ES = ES home = <node root>/install/elasticsearch-x):
+\* on another root, inside the ES home, SIBLINGS of the ES home whose name starts with its name, next to / inside the install root
+W(p, inHome, pre) == [p |-> p, inHome |-> inHome, pre |-> pre]
 Node == [vars |-> [http_port |-> S("39200"), log_path |-> S("$NODE/logs/server"), install_root_path |-> S("$ES"),
                    minimum_master_nodes |-> S("1"), cluster_settings |-> S("{}")],
          default_data |-> "$ES/data", home |-> "$ES",
-         watch |-> <<[p |-> "$ES", inHome |-> TRUE], [p |-> "$ES/data", inHome |-> TRUE]>>
-                   \o [i \in DOMAIN AllData |-> [p |-> "$DATA/" \o AllData[i], inHome |-> FALSE]]]
+         watch |-> <<W("$ES", TRUE, TRUE), W("$ES/data", TRUE, TRUE), W("$ES/inner/d", TRUE, TRUE),
+                     W("$ES-data", FALSE, TRUE), W("$ES.data0", FALSE, TRUE), W("$ES.data1", FALSE, TRUE),
+                     W("$NODE/install-data", FALSE, FALSE), W("$NODE/install/sibling", FALSE, FALSE), W("$NODE/data", FALSE, FALSE)>>
+                   \o [i \in DOMAIN AllData |-> W("$DATA/" \o AllData[i], FALSE, FALSE)]]
 
 CarName(i) == <<"c1", "c2", "c3", "c4">>[i]
 Car(i, bs, vs) == [name |-> CarName(i), kind |-> IF bs = <<>> THEN "mixin" ELSE "car", bases |-> bs, vars |-> vs]
@@ -87,15 +92,29 @@ UniverseT(maxFiles) ==
         c1 \in Choices(maxFiles), c2 \in Choices(maxFiles), sh \in {ShipFull, ShipBare}}
 
 -----------------------------------------------------------------------------
+\* C: where the data paths are relative to the installation x who proposes them x preserve
+DP(v) == "data_paths" :> v
+DataVals == {S("$ES-data"), L(<<"$ES/data", "$ES.data0", "$ES.data1">>), S("$ES/inner/d"), S("$NODE/install-data"),
+             S("$NODE/install/sibling"), L(<<"$NODE/data", "$DATA/p">>), S("$ES/data")}
+UniverseC ==
+    {[cars |-> <<Car(1, <<"b1">>, cv)>>,
+      bases |-> [b \in {"b1"} |-> [vars |-> bv, tree |-> TreeV[b]]],
+      params |-> pv, tpl |-> Tpl, shipped |-> ShipBare, preserve |-> pr, node |-> Node] :
+        cv \in {NoVars, DP(S("$DATA/c1")), DP(S("$ES-data"))}, bv \in {NoVars, DP(S("$ES.data0"))},
+        pv \in {NoVars} \cup {DP(v) : v \in DataVals}, pr \in BOOLEAN}
+
 \* (disjunctions of memberships, not one big union: TLC would build the union eagerly and quadratically at start-up)
 InitWith(U) == inp \in U /\ out = ErrOut("pending") /\ done = FALSE
 InitQuick == \/ InitWith(UniverseV({"x", "http_port", "data_paths"}, {"b1", "b2"}, LayoutsQ))
              \/ InitWith(UniverseP({"b1", "b2"}, 2, 3))
              \/ InitWith(UniverseT(2))
+             \/ InitWith(UniverseC)
 InitThorough == \/ InitWith(UniverseV({"x", "http_port", "data_paths", "log_path"}, {"b1", "b2", "b3"}, LayoutsT))
                 \/ InitWith(UniverseP({"b1", "b2", "b3"}, 2, 3))
                 \/ InitWith(UniverseT(3))
+                \/ InitWith(UniverseC)
 InitSelf == \/ InitWith(UniverseV({"x", "http_port", "data_paths"}, {"b1", "b2"}, LayoutsQ))
             \/ InitWith(UniverseP({"b1", "b2"}, 2, 2))
             \/ InitWith(UniverseT(1))
+            \/ InitWith(UniverseC)
 =============================================================================
